@@ -21,6 +21,10 @@ Next == Apply
 vars == <<vop, va, vb, res>>
 Spec == Init /\ [][Next]_vars
 
+\* an operator reads its operands, it never changes them (a blank stays blank after it was
+\* coerced to 0 / "" / FALSE): what a later operator sees does not depend on earlier ones
+OperandsKept == [][va' = va /\ vb' = vb]_vars
+
 \* --- invariants (one state per case) ---
 Done == res # Pending
 WellFormed == Done => WellFormedResult(res)
